@@ -5,8 +5,10 @@ import (
 	"fmt"
 	"os"
 	"reflect"
+	"regexp"
 	"runtime"
 	"strings"
+	"unsafe"
 
 	"google.golang.org/protobuf/encoding/protowire"
 	"google.golang.org/protobuf/proto"
@@ -312,7 +314,17 @@ func (rn *runner) runMarshal(ts []*Target, n int) {
 			md := t.desc(name)
 			for i := 0; i < n; i++ {
 				ref := randMessage(rn.r, md, genOpts{requiredAlways: rn.prop != "C17"})
-				rn.marshalCase(t, name, ref, "random")
+				label := "random"
+				if rn.r.Chance(1, 5) {
+					// a message that carries unknown fields (read from a newer writer): they count and are written
+					var unk []rec
+					for k := 1 + rn.r.Intn(2); k > 0; k-- {
+						unk = append(unk, randUnknown(rn.r, md))
+					}
+					ref.SetUnknown(emitRecs(unk))
+					label = "random+unknown"
+				}
+				rn.marshalCase(t, name, ref, label)
 			}
 		}
 	}
@@ -362,6 +374,87 @@ func lenRec(num protowire.Number, payload []byte) rec {
 	return rec{num, protowire.BytesType, protowire.AppendBytes(nil, payload)}
 }
 
+// lastWins rewrites an encoding so that, of several occurrences of one singular message field, only the
+// last survives (recursively). It is the input on which "replace" and "merge" semantics coincide; used
+// to recognise the known finding B9 precisely (generated Unmarshal replaces where the runtimes merge).
+func lastWins(md protoreflect.MessageDescriptor, b []byte) ([]byte, bool) {
+	rs, ok := parseRecs(b)
+	if !ok {
+		return b, false
+	}
+	changed := false
+	last := map[protowire.Number]int{}
+	for i, x := range rs {
+		last[x.num] = i
+	}
+	var out []rec
+	for i, x := range rs {
+		fd := md.Fields().ByNumber(x.num)
+		if fd == nil || x.typ != protowire.BytesType || fd.Message() == nil {
+			out = append(out, x)
+			continue
+		}
+		switch {
+		case fd.IsMap():
+			// normalise a message-typed value inside the entry
+			if vd := fd.MapValue(); vd.Message() != nil {
+				if nb, ch := lastWins(fd.Message(), payloadOf(x)); ch {
+					x = lenRec(x.num, nb)
+					changed = true
+				}
+			}
+		case fd.IsList():
+			if nb, ch := lastWins(fd.Message(), payloadOf(x)); ch {
+				x = lenRec(x.num, nb)
+				changed = true
+			}
+		default:
+			if last[x.num] != i {
+				changed = true
+				continue // an earlier occurrence: dropped
+			}
+			if nb, ch := lastWins(fd.Message(), payloadOf(x)); ch {
+				x = lenRec(x.num, nb)
+				changed = true
+			}
+		}
+		out = append(out, x)
+	}
+	if !changed {
+		return b, false
+	}
+	return emitRecs(out), true
+}
+
+// splitOccurrenceIncomplete: some occurrence of a singular message field that occurs several times lacks,
+// taken alone, a required field (the generated code checks each occurrence on its own).
+func splitOccurrenceIncomplete(t *Target, md protoreflect.MessageDescriptor, b []byte) bool {
+	rs, ok := parseRecs(b)
+	if !ok {
+		return false
+	}
+	count := map[protowire.Number]int{}
+	for _, x := range rs {
+		count[x.num]++
+	}
+	for _, x := range rs {
+		fd := md.Fields().ByNumber(x.num)
+		if fd == nil || x.typ != protowire.BytesType || fd.Message() == nil || fd.IsMap() {
+			continue
+		}
+		if !fd.IsList() && count[x.num] > 1 {
+			d := dynamicpb.NewMessage(fd.Message())
+			if err := (proto.UnmarshalOptions{Resolver: t.extTypes()}).Unmarshal(payloadOf(x), d); err != nil && strings.Contains(err.Error(), "required") {
+				return true
+			}
+		}
+		if splitOccurrenceIncomplete(t, fd.Message(), payloadOf(x)) {
+			return true
+		}
+	}
+	return false
+}
+
 func packable(fd protoreflect.FieldDescriptor) bool {
 	switch fd.Kind() {
 	case protoreflect.StringKind, protoreflect.BytesKind, protoreflect.MessageKind, protoreflect.GroupKind:
@@ -396,8 +489,28 @@ func splitPacked(fd protoreflect.FieldDescriptor, payload []byte) [][]byte {
 
 var unknownNumbers = []protowire.Number{900, 19000 - 1, 1 << 21, 1 << 26, 1<<29 - 1}
 
-func randUnknown(r *prng.Rng) rec {
-	num := unknownNumbers[r.Intn(len(unknownNumbers))]
+func randUnknown(r *prng.Rng, md protoreflect.MessageDescriptor) rec {
+	// a number the schema declares (field or extension range) is not "unknown": a conforming writer
+	// never emits it with a foreign wire type
+	free := func(n protowire.Number) bool {
+		return md == nil || (md.Fields().ByNumber(n) == nil && !md.ExtensionRanges().Has(n))
+	}
+	num := protowire.Number(0)
+	start := r.Intn(len(unknownNumbers))
+	for i := range unknownNumbers {
+		if c := unknownNumbers[(start+i)%len(unknownNumbers)]; free(c) {
+			num = c
+			break
+		}
+	}
+	for c := protowire.Number(1); num == 0 && c < 5000; c++ {
+		if free(c) {
+			num = c
+		}
+	}
+	if num == 0 {
+		num = 18999 // every number is declared: cannot happen with the corpus schemas
+	}
 	switch r.Intn(4) {
 	case 0:
 		return rec{num, protowire.VarintType, protowire.AppendVarint(nil, r.U64Interesting())}
@@ -528,7 +641,7 @@ func variant(r *prng.Rng, md protoreflect.MessageDescriptor, b []byte, depth int
 	if withUnknown {
 		for n := r.Intn(3); n > 0; n-- {
 			pos := r.Intn(len(out) + 1)
-			out = append(out[:pos:pos], append([]rec{randUnknown(r)}, out[pos:]...)...)
+			out = append(out[:pos:pos], append([]rec{randUnknown(r, md)}, out[pos:]...)...)
 			applied = append(applied, "unknown-field")
 		}
 	}
@@ -606,8 +719,12 @@ func (rn *runner) unmarshalCase(t *Target, name string, enc []byte, applied []st
 		outcome = "both-reject"
 	case uerr != nil:
 		outcome = "only-reference-accepts"
+		if rn.prop != "C07" && rn.prop != "C10" && rn.isMergeFinding(t, name, enc, nil, uerr) {
+			Violation(rn.prop, "unmarshal", "merge/singular-message-last-wins", "a singular message field occurring more than once is replaced by its last occurrence instead of merged (here: the last occurrence alone lacks a required field)", desc, trunc(fmt.Sprint(want), 300), uerr.Error())
+			break
+		}
 		if !malformed && rn.prop == "C06" && refPartialErr == nil {
-			Violation("C06", "unmarshal", "valid-encoding-rejected/"+strings.Join(dedup(applied), "+"), "generated Unmarshal() rejected a valid encoding that the reference runtime accepts", desc, trunc(fmt.Sprint(want), 300), uerr.Error())
+			Violation("C06", "unmarshal", "valid-encoding-rejected/"+errClass(uerr.Error()), "generated Unmarshal() rejected a valid encoding that the reference runtime accepts", desc, trunc(fmt.Sprint(want), 300), uerr.Error())
 		}
 		if rn.prop == "C17" && refPartialErr == nil {
 			Violation("C17", "unmarshal", "required/spurious-error", "Unmarshal reported an error although no required field is missing", desc, "message", uerr.Error())
@@ -630,6 +747,10 @@ func (rn *runner) unmarshalCase(t *Target, name string, enc []byte, applied []st
 		gd, derr := t.toDyn(name, got)
 		if derr != nil || !proto.Equal(gd, want) {
 			outcome = "disagree"
+			if gd != nil && rn.prop != "C07" && rn.prop != "C10" && rn.isMergeFinding(t, name, enc, gd, nil) {
+				Violation(rn.prop, "unmarshal", "merge/singular-message-last-wins", "a singular message field occurring more than once is replaced by its last occurrence instead of merged", desc, trunc(fmt.Sprint(want), 300), trunc(fmt.Sprint(gd), 300))
+				break
+			}
 			prop, sig := rn.prop, "unmarshal-differs/"+diffSig(want, gd)
 			if len(applied) > 0 {
 				sig += "/" + strings.Join(dedup(applied), "+")
@@ -653,6 +774,38 @@ func (rn *runner) unmarshalCase(t *Target, name string, enc []byte, applied []st
 		}
 	}
 	Count("unmarshal", fmt.Sprint(desc), outcome, len(enc), len(enc) > 0)
+}
+
+var reDigits = regexp.MustCompile(`[0-9]+`)
+var reQuoted = regexp.MustCompile(`'[^']*'`)
+
+// errClass reduces an error message to its shape (numbers and quoted names removed).
+func errClass(e string) string {
+	return trunc(reDigits.ReplaceAllString(reQuoted.ReplaceAllString(e, "'_'"), "N"), 120)
+}
+
+// isMergeFinding reports whether the generated result is exactly what the reference runtime yields once
+// every repeated occurrence of a singular message field is reduced to its last one (known finding B9).
+func (rn *runner) isMergeFinding(t *Target, name string, enc []byte, got *dynamicpb.Message, uerr error) bool {
+	md := t.desc(name)
+	nb, changed := lastWins(md, enc)
+	if !changed {
+		return false
+	}
+	want2 := dynamicpb.NewMessage(md)
+	err2 := proto.UnmarshalOptions{Resolver: t.extTypes()}.Unmarshal(nb, want2)
+	if uerr != nil {
+		// generated Unmarshal failed: attributable only if the reduced input is rejected by the reference
+		// too, for a missing required field
+		if !strings.Contains(uerr.Error(), "required") {
+			return false
+		}
+		return (err2 != nil && strings.Contains(err2.Error(), "required")) || splitOccurrenceIncomplete(t, md, enc)
+	}
+	if err2 != nil && !strings.Contains(err2.Error(), "required") {
+		return false
+	}
+	return proto.Equal(got, want2)
 }
 
 func panicClass(p string) string {
@@ -945,13 +1098,14 @@ func (rn *runner) history(t *Target, name string, steps int) {
 }
 
 func (t *Target) deepCopy(name string, m interface{}) interface{} {
-	var b []byte
-	var err error
-	if t.Runtime == "gogo" {
-		b, err = t.readBack(name, m)
-	} else {
-		b, err = proto.MarshalOptions{Deterministic: true, AllowPartial: true}.Marshal(proto.Clone(m.(proto.Message)))
+	if t.Runtime != "gogo" {
+		// structural copy that neither touches the original (a runtime Marshal would refresh its size
+		// caches) nor loses values (proto.Clone drops a proto3 -0.0); caches start out empty in the copy
+		cp := reflect.New(reflect.TypeOf(m).Elem())
+		rawDeepCopy(cp.Elem(), reflect.ValueOf(m).Elem())
+		return cp.Interface()
 	}
+	b, err := t.readBack(name, m)
 	if err != nil {
 		return nil
 	}
@@ -960,6 +1114,82 @@ func (t *Target) deepCopy(name string, m interface{}) interface{} {
 		return nil
 	}
 	return cp
+}
+
+// rawDeepCopy copies src into dst (same type), including unexported fields, except the runtime's caches
+// and bookkeeping (state, sizeCache), which stay zero.
+func rawDeepCopy(dst, src reflect.Value) {
+	if !src.CanInterface() { // unexported: re-derive an accessible value over the same memory
+		if !src.CanAddr() {
+			return
+		}
+		src = reflect.NewAt(src.Type(), unsafe.Pointer(src.UnsafeAddr())).Elem()
+	}
+	if !dst.CanSet() {
+		dst = reflect.NewAt(dst.Type(), unsafe.Pointer(dst.UnsafeAddr())).Elem()
+	}
+	switch src.Kind() {
+	case reflect.Ptr:
+		if src.IsNil() {
+			return
+		}
+		if src.Elem().Kind() != reflect.Struct {
+			n := reflect.New(src.Type().Elem())
+			n.Elem().Set(src.Elem())
+			dst.Set(n)
+			return
+		}
+		n := reflect.New(src.Type().Elem())
+		rawDeepCopy(n.Elem(), src.Elem())
+		dst.Set(n)
+	case reflect.Struct:
+		for i := 0; i < src.NumField(); i++ {
+			switch src.Type().Field(i).Name {
+			case "state", "sizeCache", "XXX_sizecache", "XXX_NoUnkeyedLiteral":
+				continue
+			}
+			rawDeepCopy(dst.Field(i), src.Field(i))
+		}
+	case reflect.Slice:
+		if src.IsNil() {
+			return
+		}
+		n := reflect.MakeSlice(src.Type(), src.Len(), src.Len())
+		for i := 0; i < src.Len(); i++ {
+			rawDeepCopy(n.Index(i), src.Index(i))
+		}
+		dst.Set(n)
+	case reflect.Map:
+		if src.IsNil() {
+			return
+		}
+		n := reflect.MakeMapWithSize(src.Type(), src.Len())
+		it := src.MapRange()
+		for it.Next() {
+			v := reflect.New(src.Type().Elem()).Elem()
+			if k := it.Value().Kind(); k == reflect.Ptr || k == reflect.Slice {
+				rawDeepCopy(v, it.Value())
+			} else {
+				v.Set(it.Value()) // scalars and the runtime's own extension records
+			}
+			n.SetMapIndex(it.Key(), v)
+		}
+		dst.Set(n)
+	case reflect.Interface:
+		if src.IsNil() {
+			return
+		}
+		inner := src.Elem()
+		if inner.Kind() == reflect.Ptr && inner.Elem().Kind() == reflect.Struct { // oneof wrapper
+			n := reflect.New(inner.Type().Elem())
+			rawDeepCopy(n.Elem(), inner.Elem())
+			dst.Set(n)
+			return
+		}
+		dst.Set(inner)
+	default:
+		dst.Set(src)
+	}
 }
 
 func (t *Target) runtimeSizeMarshal(m interface{}) {
